@@ -13,7 +13,8 @@ import (
 
 // XN is a node of an abstract XML document (prefixed names, declarations, text segments).
 type XN struct {
-	Kind   string // elem text comment pi
+	Kind   string // elem text comment pi xmldecl doctype ws
+	AttrsFirst bool
 	HasPfx bool
 	Pfx    string
 	Local  string
@@ -37,7 +38,7 @@ func (g *xmlGen) scopeHas(scope map[string]string, p string) bool { _, ok := sco
 func (g *xmlGen) elem(depth int, scope map[string]string) XN {
 	r := g.r
 	g.budget--
-	n := XN{Kind: "elem", Local: Pick(r, []string{"a", "b", "c", "item", "x-1", "n.m", "r"})}
+	n := XN{Kind: "elem", Local: Pick(r, []string{"a", "b", "c", "item", "x-1", "n.m", "r"}), AttrsFirst: r.Chance(1, 3)}
 	sc := map[string]string{}
 	for k, v := range scope {
 		sc[k] = v
@@ -187,32 +188,42 @@ func (n XN) write(b *strings.Builder, r *Rng) {
 			b.WriteString(" " + n.Val)
 		}
 		b.WriteString("?>")
+	case "xmldecl":
+		b.WriteString("<?xml " + n.Val + "?>")
+	case "doctype":
+		b.WriteString("<!DOCTYPE " + n.Val + ">")
+	case "ws":
+		b.WriteString(n.Val)
 	case "elem":
 		name := n.Local
 		if n.HasPfx {
 			name = n.Pfx + ":" + n.Local
 		}
 		b.WriteString("<" + name)
-		// declarations and attributes in a random interleaving that keeps each group's order
-		di, ai := 0, 0
-		for di < len(n.Decls) || ai < len(n.Attrs) {
-			if di < len(n.Decls) && (ai >= len(n.Attrs) || r.Chance(1, 2)) {
-				d := n.Decls[di]
-				di++
+		writeDecls := func() {
+			for _, d := range n.Decls {
 				if d[0] == "" {
 					b.WriteString(" xmlns=\"" + xmlEscape(r, d[1], true) + "\"")
 				} else {
 					b.WriteString(" xmlns:" + d[0] + "=\"" + xmlEscape(r, d[1], true) + "\"")
 				}
-			} else {
-				a := n.Attrs[ai]
-				ai++
+			}
+		}
+		writeAttrs := func() {
+			for _, a := range n.Attrs {
 				an := a[1]
 				if a[0] != "" {
 					an = a[0] + ":" + a[1]
 				}
 				b.WriteString(Pick(r, []string{" ", "  ", "\n"}) + an + "=\"" + xmlEscape(r, a[2], true) + "\"")
 			}
+		}
+		if n.AttrsFirst {
+			writeAttrs()
+			writeDecls()
+		} else {
+			writeDecls()
+			writeAttrs()
 		}
 		if len(n.Kids) == 0 && r.Chance(1, 2) {
 			b.WriteString("/>")
@@ -230,10 +241,20 @@ func (n XN) Sexp() string {
 	switch n.Kind {
 	case "text":
 		s := "(xtext"
-		for _, seg := range n.Segs {
-			s += " " + EncStr(seg)
+		for i, seg := range n.Segs {
+			if n.Seg[i] == "cdata" {
+				s += " (c " + EncStr(seg) + ")"
+			} else {
+				s += " (p " + EncStr(seg) + ")"
+			}
 		}
 		return s + ")"
+	case "xmldecl":
+		return "(xdecl " + EncStr(n.Val) + ")"
+	case "doctype":
+		return "(xdoctype)"
+	case "ws":
+		return "(xws " + EncStr(n.Val) + ")"
 	case "comment":
 		return "(xcomment " + EncStr(n.Val) + ")"
 	case "pi":
@@ -248,6 +269,11 @@ func (n XN) Sexp() string {
 		s += " (" + pfxSexp(a[0] != "", a[0]) + " " + EncStr(a[1]) + " " + EncStr(a[2]) + ")"
 	}
 	s += ")"
+	if n.AttrsFirst {
+		s += " 1"
+	} else {
+		s += " 0"
+	}
 	for _, k := range n.Kids {
 		s += " " + k.Sexp()
 	}
@@ -305,38 +331,44 @@ func GenXmlFamily(w *Writer, r *Rng, t Tier) error {
 		cr := r.Fork()
 		g := &xmlGen{r: cr, budget: 4 + cr.Intn(20)}
 		var top []XN
-		if cr.Chance(1, 4) {
-			top = append(top, XN{Kind: "comment", Val: "prolog"})
+		gap := func() {
+			if w := Pick(cr, []string{"", "", "\n", "  ", "\n\t"}); w != "" {
+				top = append(top, XN{Kind: "ws", Val: w})
+			}
 		}
-		if cr.Chance(1, 6) {
-			top = append(top, XN{Kind: "pi", Local: "pi", Val: "p"})
-		}
-		top = append(top, g.elem(0, map[string]string{}))
-		if cr.Chance(1, 4) {
-			top = append(top, XN{Kind: "comment", Val: "epilog"})
-		}
-		var b strings.Builder
 		enc := ""
 		switch cr.Intn(6) {
 		case 0:
-			b.WriteString("<?xml version=\"1.0\"?>")
+			top = append(top, XN{Kind: "xmldecl", Val: "version=\"1.0\""})
 		case 1:
-			b.WriteString("<?xml version=\"1.0\" encoding=\"UTF-8\"?>\n")
+			top = append(top, XN{Kind: "xmldecl", Val: "version=\"1.0\" encoding=\"UTF-8\""})
 		case 2:
 			enc = Pick(cr, []string{"ISO-8859-1", "windows-1252", "US-ASCII", "ISO-8859-15"})
-			b.WriteString("<?xml version=\"1.0\" encoding=\"" + enc + "\"?>\n")
+			top = append(top, XN{Kind: "xmldecl", Val: "version=\"1.0\" encoding=\"" + enc + "\""})
 		}
-		for k, n := range top {
-			if k > 0 || cr.Chance(1, 2) {
-				b.WriteString(Pick(cr, []string{"", "\n", "  ", "\r\n"}))
-			}
-			if n.Kind == "elem" && cr.Chance(1, 5) {
-				b.WriteString("<!DOCTYPE " + n.Local + ">" + Pick(cr, []string{"", "\n"}))
-			}
+		gap()
+		if cr.Chance(1, 4) {
+			top = append(top, XN{Kind: "comment", Val: "prolog"})
+			gap()
+		}
+		if cr.Chance(1, 6) {
+			top = append(top, XN{Kind: "pi", Local: "pi", Val: "p"})
+			gap()
+		}
+		rootElem := g.elem(0, map[string]string{})
+		if cr.Chance(1, 5) {
+			top = append(top, XN{Kind: "doctype", Val: rootElem.Local})
+			gap()
+		}
+		top = append(top, rootElem)
+		gap()
+		if cr.Chance(1, 4) {
+			top = append(top, XN{Kind: "comment", Val: "epilog"})
+			gap()
+		}
+		var b strings.Builder
+		for _, n := range top {
 			n.write(&b, cr)
-		}
-		if cr.Chance(1, 2) {
-			b.WriteString("\n")
 		}
 		text := b.String()
 		data := []byte(text)
@@ -369,8 +401,6 @@ func GenXmlFamily(w *Writer, r *Rng, t Tier) error {
 			expect = "err"
 			switch cr.Intn(5) {
 			case 0: // cut inside the document element
-				first := bytes.Index(data, []byte("<"+top[len(top)-1].Local))
-				_ = first
 				root := -1
 				for k, n := range top {
 					if n.Kind == "elem" {
@@ -416,7 +446,7 @@ func GenXmlFamily(w *Writer, r *Rng, t Tier) error {
 			}
 			line = "xml " + xdoc + " " + toks + " " + terminal + " -"
 		} else {
-			impl = "same=1 wf=1 specok=1"
+			impl = "same=1 wf=1 specok=1 tokok=1"
 			if xdoc == "-" {
 				impl = "same=1 wf=1"
 			}
